@@ -40,6 +40,7 @@ func oracleLayerSpec(c *FsCase, before, after *Outcome, out string) []Problem {
 		wh       bool   // plain whiteout
 		opq      bool   // opaque marker
 		reserved bool   // other .wh..wh. metadata
+		nocreate bool   // a device entry inside a user namespace: what is at the path is removed, nothing is created (documented tolerance)
 		target   string // what a whiteout/marker acts on
 	}
 	var es []le
@@ -62,6 +63,8 @@ func oracleLayerSpec(c *FsCase, before, after *Outcome, out string) []Problem {
 			x.wh, x.target = true, filepath.Join(filepath.Dir(n), base[len(".wh."):])
 		case e.Typ == "xglobal":
 			x.reserved = true // PAX global header under an ordinary name: consumed, nothing is created for it
+		case (e.Typ == "chr" || e.Typ == "blk") && c.Opts.UserNS:
+			x.nocreate = true
 		}
 		es = append(es, x)
 	}
@@ -98,7 +101,7 @@ func oracleLayerSpec(c *FsCase, before, after *Outcome, out string) []Problem {
 			}
 			provided := false
 			for j, o := range es {
-				if j != i && !o.wh && !o.reserved && !o.opq && pathIsOrUnder(o.name, cand) {
+				if j != i && !o.wh && !o.reserved && !o.opq && !o.nocreate && pathIsOrUnder(o.name, cand) {
 					provided = true
 				}
 				if j != i && o.opq && pathIsOrUnder(o.target, cand) {
@@ -127,7 +130,7 @@ func oracleLayerSpec(c *FsCase, before, after *Outcome, out string) []Problem {
 		d := m.target
 		for j := 0; j < i; j++ {
 			e := es[j]
-			if e.wh || e.opq || e.reserved || e.name == d || !pathIsOrUnder(e.name, d) {
+			if e.wh || e.opq || e.reserved || e.nocreate || e.name == d || !pathIsOrUnder(e.name, d) {
 				continue
 			}
 			// skip when any later entry (other than this marker) acts on e or an ancestor of e
